@@ -11,16 +11,21 @@
 (*  AuthCall(conn, ok)  as in C01 (tells which connections are accepted)    *)
 EXTENDS Mon
 
-MonInit == [viol |-> {}, accepted |-> {}, sentUnauthed |-> {}]
+MonInit == [viol |-> {}, accepted |-> {}, sentUnauthed |-> {}, pending |-> {}]
 
 IsAuthReq(e) == e.method = "POST" /\ e.host = "hysteria" /\ e.path = "/auth"
 
 MonStep(m, e, ln) ==
   CASE e.ev = "Reset" -> [MonInit EXCEPT !.viol = m.viol]
     [] e.ev = "AuthCall" -> [m EXCEPT !.accepted = IF e.ok THEN m.accepted \cup {e.conn} ELSE m.accepted]
+    [] e.ev = "HTTPReqSent" -> [m EXCEPT !.pending = @ \cup {<<e.conn, e.op>>}]
+    \* appended by hv when the driver stalled for good (go test timed out): a request that was sent and never
+    \* answered while the whole system stood still has not received the masquerade handler's response
+    [] e.ev = "Aborted" -> [m EXCEPT !.viol = VAll(m.viol, e, ln, << <<"Masq_NoResponse", m.pending # {}>> >>)]
     [] e.ev = "HTTPResp" ->
          LET acceptedReq == IsAuthReq(e) /\ (e.credok \/ e.conn \in m.accepted) IN
-         [m EXCEPT !.viol = VAll(m.viol, e, ln,
+         [m EXCEPT !.pending = @ \ {<<e.conn, e.op>>},
+                   !.viol = VAll(m.viol, e, ln,
             << <<"Masq_Status233",      ~acceptedReq /\ e.status = 233>>,
                <<"Masq_HysteriaHeader", ~acceptedReq /\ e.hyHdr>>,
                <<"Masq_NotHandlerResponse", ~acceptedReq /\ ~e.same>> >>)]
